@@ -78,6 +78,9 @@ def main():
             if rc == 2:
                 ent["harness_error"] = out[-1500:]
             ent["caught"] = rc == 1
+            ent["replays"] = [l.split("replay=")[1].strip()
+                              for l in out.splitlines()
+                              if l.startswith("VIOLATION ")]
             report["checks"][c] = ent
         report["caught_by"] = [c for c, e in report["checks"].items()
                                if e["caught"]]
@@ -109,6 +112,16 @@ def main():
                                   if k != "harness_error"}
                               for c, e in report["checks"].items()},
              "caught_by": report["caught_by"]}
+        # keep one minimised replay per catching check as documentation of
+        # reach (it reproduces only with the patch applied)
+        for c, e in report["checks"].items():
+            for j, rp in enumerate(e.get("replays", [])[:1]):
+                if os.path.exists(rp):
+                    shutil.copy(rp, f"{dst}/replay-{c}.json")
+        for c, e in report["checks"].items():
+            for rp in e.get("replays", []):
+                if os.path.exists(rp):
+                    os.remove(rp)
         json.dump(m, open(f"{dst}/meta.json", "w"), indent=1)
     return report
 
